@@ -125,6 +125,20 @@ def derive_queue(rep, name):
     rep[p] = dst
 
 
+def derive_pdcoord(rep, name):
+    """doCheckNamespaces starts with a fixed 10 ms sleep (debounce); the explorer calls it
+    tens of thousands of times, so the derived copy drops that one statement."""
+    p = os.path.join(REPO, "cluster/pdnode_coord/pd_coordinator.go")
+    src = open(rsrc(p)).read()
+    anchor = "\ttime.Sleep(time.Millisecond * 10)\n\tdefer atomic.StoreInt32(&pdCoord.doChecking, 0)\n"
+    if src.count(anchor) != 1:
+        infra("pd_coordinator.go debounce anchor not found")
+    out = src.replace(anchor, "\tdefer atomic.StoreInt32(&pdCoord.doChecking, 0)\n")
+    dst = os.path.join(BUILD, "derived", name, "pd_coordinator.go")
+    write_if_changed(dst, out)
+    rep[p] = dst
+
+
 def derive_vclock(rep, name):
     p = os.path.join(GOROOT, "src/time/time.go")
     src = open(p).read()
@@ -172,6 +186,7 @@ def main():
     shims(rep)
     if "--noqueue" not in args:
         derive_queue(rep, name)
+    derive_pdcoord(rep, name)
     if "--vclock" in args:
         derive_vclock(rep, name)
     if "--crash" in args:
